@@ -741,6 +741,32 @@ func c10L1(c *core.Ctx) {
 			}
 		}
 	}
+	// a book in which a heading is declared once more with nothing under it (the later declaration counts; a record
+	// like any other for the reader): what follows it is still part of the file - its recipes are loaded, and a line
+	// beyond the line buffer further down is still an error
+	{
+		head := "a/b:\n  x: 2\n  y: 1\n\nd:\n  a/b: 2\n\na/b:\nzz:\n  y: 7\n"
+		os.WriteFile(filepath.Join(dir, "redecl.yaml"), []byte(head), 0o644)
+		os.WriteFile(filepath.Join(dir, "redecl-long.yaml"), []byte(head+"late:\n  # "+strings.Repeat("n", 70000)+"\n  x: 1\n"), 0o644)
+		os.WriteFile(filepath.Join(dir, "redecl-log.yaml"), []byte("2021/01/24:\n  zz: 1\n  d: 1\n"), 0o644)
+		for _, cmd := range [][]string{{"reg"}, {"bal"}, {"csv", "database-resolved"}, {"report", "totals"}, {"report", "element-total", "y"}, {"summary", "2021/01/24"}, {"report", "unresolved"}} {
+			args := append([]string{"--no-color", "-d", "redecl.yaml", "-l", "redecl-log.yaml"}, cmd...)
+			okRes := run.Exec(c.HR, args, run.ExecOpts{Dir: dir})
+			largs := append([]string{"--no-color", "-d", "redecl-long.yaml", "-l", "redecl-log.yaml"}, cmd...)
+			bad := run.Exec(c.HR, largs, run.ExecOpts{Dir: dir})
+			c.Eval(2)
+			c.Count("l1_books_with_a_bare_redeclared_heading", 1)
+			c.Nontrivial("redeclared", joinArgs(cmd))
+			sig := strings.Join(cmd[:min(2, len(cmd))], " ")
+			showsAmounts := cmd[0] != "bal" && !(cmd[0] == "report" && cmd[1] == "unresolved")
+			if okRes.Exit != 0 || (showsAmounts && !strings.Contains(okRes.Out, "7")) {
+				c.Violation(sig+"|records-after-a-bare-heading-lost", fmt.Sprintf("%s: exit %d, the recipe declared after the bare heading (zz: y 7) does not show: %q", joinArgs(cmd), okRes.Exit, clip(okRes.Out, 200)), caseDoc{Args: args, Note: "book: " + head, Observed: resDoc(okRes)})
+			}
+			if bad.Crashed() || bad.Exit == 0 {
+				c.Violation(sig+"|unreadable-input-accepted", fmt.Sprintf("a 70 KiB line after a bare redeclared heading: %s exits %d", joinArgs(cmd), bad.Exit), caseDoc{Args: largs, Note: "book: " + head + "late:\n  # <70000 bytes>\n  x: 1", Observed: map[string]any{"exit": bad.Exit, "stderr": clip(bad.Serr, 300), "stdout_bytes": len(bad.Out)}})
+			}
+		}
+	}
 	// a file whose last byte is a carriage return (CRLF file cut before the final line feed): every line counts
 	{
 		crlog := strings.ReplaceAll(strings.TrimRight(log, "\n"), "\n", "\r\n") + "\r"
